@@ -4,7 +4,7 @@ from __future__ import annotations
 from dataclasses import dataclass, field
 
 from . import ty as T
-from .ty import BOOL, INT, NONE, REAL, STR, Dict, List, Map, Named, Opaque, Opt, Ref, Set, Tuple, TupleOf, Union  # noqa: F401
+from .ty import BOOL, INT, NONE, REAL, STR, Dict, Enum, List, Map, Named, Opaque, Opt, Ref, Set, Tuple, TupleOf, Union  # noqa: F401
 
 CONTRACTS: dict[str, "FnContract"] = {}
 CLASSES: dict[str, "ClassSpec"] = {}
@@ -49,6 +49,7 @@ class FnContract:
     ghost: dict = field(default_factory=dict)  # statement text -> [ghost assignment statements] run after it
     runtime: object = None  # Runtime: generator of real inputs for cross-check / replay
     alias_ok: tuple = ()
+    canon_binders: bool = False  # emit this contract's obligations with canonical bound-variable names (alpha-equivalent sub-formulas become identical terms)
     seq_bridge: bool = False  # a list built from other lists (`append`, `extend`, `insert`, `+`, `+=`) comes with POSITIONAL facts on the new sequence (nth(new, j) == nth(part, j - offset), pattern nth(new, j)): position-wise invariants become e-matching + arithmetic
     comp_member_facts: bool = True  # set/dict comprehensions over a LIST assume "every position holds a member" / "every member has a position" for the source list; switch off where these two quantified facts slow unrelated obligations down
     extract_free: bool | None = None  # list slices / pop / insert / del without seq.extract (a fresh sequence + its two defining facts); None = the global default (PYVC_EXTRACT_FREE, off)
